@@ -132,7 +132,7 @@ def read_spec(name: str) -> str:
 
 
 def workdir(tag: str) -> str:
-    d = os.path.join(VERIF, "work", "%s-%d" % (tag, os.getpid()))
+    d = os.path.join(os.environ.get("VERIF_SCRATCH") or VERIF, "work", "%s-%d" % (tag, os.getpid()))
     os.makedirs(d, exist_ok=True)
     return d
 
